@@ -857,7 +857,7 @@ func parentMain(c *Ctx) int {
 	if err := writeEvidence(c, pd, a, len(us), wall, nViol); err != nil {
 		a.infra = append(a.infra, "evidence: "+err.Error())
 	}
-	if c.Tier == "thorough" && code == 0 {
+	if c.Tier == "thorough" && code == 0 && !c.Race && os.Getenv("VERIF_ONLY_CHECK") == "" {
 		for _, p := range pd.RequiredProbes {
 			if a.probes[p] == 0 {
 				a.infra = append(a.infra, "required probe never hit: "+p)
